@@ -653,7 +653,7 @@ func genStep(r *rand.Rand, w *world.World, o genOpts, nextID map[string]int, ste
 	case "force":
 		return Event{Ev: []string{"force", "force", "unforce"}[r.Intn(3)], N: pick()}
 	case "annotate":
-		return Event{Ev: []string{"annotate", "annotate", "unannotate"}[r.Intn(3)], N: pick(), S: []string{"x", "reason", ""}[r.Intn(3)]}
+		return Event{Ev: []string{"annotate", "annotate", "unannotate"}[r.Intn(3)], N: pick(), S: []string{"x", "reason", "", " ", "\t"}[r.Intn(5)]}
 	case "node_gone":
 		if (o.profile == "swap" || r.Intn(4) == 0) && len(gs.Asg.Members) > 0 && r.Intn(2) == 0 { // the cloud takes an instance away; its Node stays for now
 			return Event{Ev: "instance_lost", G: g, N: gs.Asg.Members[r.Intn(len(gs.Asg.Members))]}
